@@ -32,7 +32,7 @@ pub struct Scenario {
 impl Scenario {
     pub fn to_json(&self) -> Value {
         json!({"miri_seed": self.miri_seed, "preemption_rate": self.rate, "first_round": self.first, "rounds": self.rounds, "threads": self.threads,
-               "command": format!("cd {}/miri && MIRIFLAGS=\"{}\" cargo +nightly miri run --offline -- {} {} {}", verif_dir(), self.flags(), self.first, self.rounds, self.threads)})
+               "command": format!("cd {}/miri && MIRIFLAGS=\"{}\" cargo +nightly miri run --offline -- {:06} {:06} {:02}", verif_dir(), self.flags(), self.first, self.rounds, self.threads)})
     }
     pub fn from_json(v: &Value) -> Option<Scenario> {
         Some(Scenario {
@@ -97,7 +97,9 @@ pub fn run_one(sc: &Scenario) -> Outcome {
     let dir = format!("{}/miri", verif_dir());
     let child = Command::new("cargo")
         .args(["+nightly", "miri", "run", "--offline", "--quiet", "--"])
-        .args([sc.first.to_string(), sc.rounds.to_string(), sc.threads.to_string()])
+        // fixed-width arguments: the argument strings are allocations of the interpreted program,
+        // and Miri's address randomisation draws from the same stream as its scheduler
+        .args([format!("{:06}", sc.first), format!("{:06}", sc.rounds), format!("{:02}", sc.threads)])
         .current_dir(&dir)
         .env("MIRIFLAGS", sc.flags())
         .env("CARGO_NET_OFFLINE", "true")
@@ -185,7 +187,7 @@ pub fn confirm(v: &Value) -> Result<bool, String> {
 
 /// Shrinks a failing scenario: only the failing round, then ever longer suffixes ending in it,
 /// under the same Miri seed (the schedule is a function of seed and program, so every candidate
-/// is simply tried). Returns the smallest one that fails with the same class.
+/// is simply tried). Returns the smallest one that fails with the same class, else the original.
 fn minimise(sc: &Scenario, class: &str, round: Option<u64>) -> (Scenario, u64) {
     let Some(r) = round else { return (sc.clone(), 0) };
     let mut trials = 0;
@@ -194,6 +196,11 @@ fn minimise(sc: &Scenario, class: &str, round: Option<u64>) -> (Scenario, u64) {
     while f > sc.first {
         f = f.saturating_sub(3).max(sc.first);
         firsts.push(f);
+    }
+    // a Miri process costs minutes: the failing round alone, the last four rounds, the prefix
+    firsts.truncate(2);
+    if !firsts.contains(&sc.first) {
+        firsts.push(sc.first);
     }
     for first in firsts {
         if first == sc.first && r + 1 - first == sc.rounds {
@@ -207,7 +214,9 @@ fn minimise(sc: &Scenario, class: &str, round: Option<u64>) -> (Scenario, u64) {
             }
         }
     }
-    (Scenario { rounds: r + 1 - sc.first, ..sc.clone() }, trials)
+    // nothing shorter fails the same way: the schedule is a function of the whole command line,
+    // so the scenario that did fail is the replay
+    (sc.clone(), trials)
 }
 
 pub struct Phase {
